@@ -72,6 +72,8 @@ def _case(draw, tier):
     # the observed call is the SECOND one on the same runner (warm cache: cached nodes are served as cache hits, which have their
     # own emission sites)
     c["warm"] = prob(draw, 0.5)
+    # the host process promotes warnings to errors: whatever the library warns about is raised - with and without observers alike
+    c["warnings_as_errors"] = prob(draw, 0.25)
     c["idx_draw"] = draw(st.lists(st.integers(0, 10_000), min_size=40, max_size=40))
     return c
 
@@ -248,6 +250,11 @@ def check_case(case, ev):
     if bare.rejected or bare.paused:
         ev.discard("rejected_or_paused")
         return
+    if case.get("warnings_as_errors") and bare.outcome.status == "raised" and isinstance(bare.outcome.error, Warning):
+        ev.discard("library_warning_raised_under_the_host_policy")  # (the call itself warns - e.g. about an overridden internal value; nothing to do with observers)
+        return
+    if case.get("warnings_as_errors"):
+        labels.add("host_promotes_warnings_to_errors")
     want = _form(bare)
     base_rec = []
     base_calls, _, _ = run_with(lambda i, rk: [base_rec.append(P()) or base_rec[-1]])
